@@ -40,6 +40,8 @@ from fractions import Fraction
 
 from common.framework import PropertyCheck, frac_str
 
+import c18_big
+
 PAD_MODES = ("replicate", "constant", "reflect", "circular")
 SIG_SINGLE = "C18.store.single_frame_rejected"
 SIG_NAN = "C18.return.nonfinite_underflow"
@@ -185,7 +187,19 @@ class C18(PropertyCheck):
             "extent 0: RuntimeError in every mode), the all-defaults call, "
             "functional and module (also on the malformed stream); returns: gamma in {0, +-1/2, 1/4, +-1, 2} "
             "(also as python int) x T <= 8 x both layouts exact, non-contiguous rewards, empty batch, rewards "
-            "that are not 2-D (RuntimeError), real gammas within tolerance, long horizons oracle-only. "
+            "that are not 2-D (RuntimeError), real gammas within tolerance, long horizons oracle-only; "
+            "big (size-triggered paths, c18_big.py; inputs regenerated from a seed): every function with LONG "
+            "inputs at and around SIZES = 255, 256, 257, 1023, 1024, 1025, 2047, 2048, 2049, 4097, 10000 -- returns: "
+            "T in SIZES x both layouts (gamma rotating through 1/2, 1, -1, -1/2, 1/4, 0.9, 0.95, 0.99, -0.97, 1.001; "
+            "functional / module / keyword routes; 1-3 sequences; float32/float64, 10000 in float32), gamma = 0 on a "
+            "long horizon, batches of SIZES sequences on a horizon <= 8; deltas: time axis in SIZES (rank 1-3, every "
+            "pad mode rotating, order <= 3, width <= 3), windows of width 16-1024 (T just above or far below the "
+            "padding), orders 6-12, SIZES rows; mvn: SIZES frames in one call or cut at random into <= 7 calls "
+            "(shuffled), SIZES accumulate calls, SIZES coefficients, store + forward (module, functional, own "
+            "statistics); cli: an utterance of SIZES frames next to short ones, 257 (thorough: 1025) short files, with "
+            "and without groups.  Oracle there: the defining formula in exact python integer arithmetic; FIRST and "
+            "LAST time step / frame compared and reported separately; sizes <= 257 also through the Lean driver "
+            "(python oracle == Lean spec exactly). "
             "non-trivial: >= 2 chunks / >= 3 calls with a store / order >= 1 / gamma != 0 and T >= 2; distinct by case.")
     assumptions = [
         "float rounding is not modelled: accumulators, width-1 deltas and dyadic-gamma returns are compared "
@@ -199,6 +213,10 @@ class C18(PropertyCheck):
         "oracle stream uses |gamma| < 1 where every R_t is representable",
         "torch primitives (transpose/flatten/view/movedim, F.pad, conv1d, matmul, pow, tril/triu) at their "
         "documented meaning",
+        "big stream: beyond 257 steps the interpreted Lean driver is too slow (deltas: 26 s at T = 1025), the oracle "
+        "is the defining recurrence / regression formula / pooled sums in exact python integers (c18_big.py "
+        "*_oracle), tied to the Lean spec only on the sizes <= 257; float tolerance of a T-term dot product "
+        "(1e-5 + 2e-7 sqrt T) * sum |gamma|^k |r| in float32; |gamma| <= 1.001 so that nothing overflows",
     ]
     quick_budget_s = 150
     thorough_budget_s = 900
@@ -212,6 +230,29 @@ class C18(PropertyCheck):
         yield from self.gen_mvnseq(rng, big)
         yield from self.gen_cli(rng, big)
         yield from self.gen_deltas(rng, big)
+        # size-triggered paths: a few LONG inputs for every function (c18_big.py)
+        yield from c18_big.gen_big(rng, big)
+
+    # ---------------------------------------------------------------- big (c18_big.py)
+    def impl_big(self, case):
+        return c18_big.impl_big(case)
+
+    def req_big(self, case):
+        return c18_big.req_big(case)
+
+    def cmp_big(self, case, impl, model):
+        out = c18_big.cmp_big(case, impl, model)
+        if out or case["what"] != "return":
+            return out
+        # the ordinary correspondence for the sizes the Lean model can run: implementation against the model
+        R = impl["full"]["R"]
+        if not case["batch_first"]:
+            R = [[R[n][t] for n in range(case["N"])] for t in range(case["T"])]
+        sub = {"stream": "exact" if impl.get("stream") == "exact" else "tol", "dtype": case["dtype"]}
+        return self.cmp_return(sub, {"R": R}, model)
+
+    def pred_big(self, case, impl, model):
+        return c18_big.pred_big(case, impl, model)
 
     # ---------------------------------------------------------------- mvn
     def rand_pool(self, rng, n, rank=None, dim=None, dtype=None, X=None):
@@ -1682,6 +1723,8 @@ class C18(PropertyCheck):
     # ================================================================ evidence
     def nontrivial(self, case, impl):
         k = case["kind"]
+        if k == "big":
+            return c18_big.nontrivial_big(case, impl)
         if k == "mvn":
             return len(case["history"]) >= 2
         if k == "mvnseq":
@@ -1698,6 +1741,8 @@ class C18(PropertyCheck):
 
     def tags(self, case, impl):
         k = case["kind"]
+        if k == "big":
+            return c18_big.tags_big(case, impl)
         t = [f"kind={k}"]
         if k == "mvn":
             t += [f"mvn.chunks={len(case['history'])}", f"mvn.tensors={len(case['tensors'])}",
@@ -1794,6 +1839,9 @@ class C18(PropertyCheck):
 
     def shrink_raw(self, case):
         k = case["kind"]
+        if k == "big":
+            yield from c18_big.shrink_big(case)
+            return
         if k == "mvn":
             for opt in ("layouts", "lift", "store_after"):
                 if case.get(opt) is not None:
